@@ -3,7 +3,7 @@ package main
 func init() {
 	register(propSpec{
 		ID: "C15", Pkg: "props/c15", NeedCLI: true,
-		Rule: "cases: nucleotide and protein alignments of 1-6 rows and 1-15 columns (drawn column-wise from few patterns so that counts repeat and tie, gap rich, some with lower case incl. protein-only and RNA letters, N/X, '.' and '*'), alphabet forced or - for a third of those whose letters decide it - detected (AutoAlphabet; no --alphabet on the command line), one library case in three built through a drawn chain of public operations ending on the generated content (clone, touch, rename cycle, cut window, select sites, trim gap / constant ends, drop gap rows, concat, append, re-parse FASTA); " +
+		Rule: "cases: nucleotide and protein alignments of 1-6 rows and 1-15 columns, one in 80 (one in 40 from the command line) tiled to 1000-2600 columns (around 1024 and 2048 too) with a few edited cells, (drawn column-wise from few patterns so that counts repeat and tie, gap rich, some with lower case incl. protein-only and RNA letters, N/X, '.' and '*'), alphabet forced or - for a third of those whose letters decide it - detected (AutoAlphabet; no --alphabet on the command line), one library case in three built through a drawn chain of public operations ending on the generated content (clone, touch, rename cycle, cut window, select sites, trim gap / constant ends, drop gap rows, concat, append, re-parse FASTA); " +
 			"Mask with windows (start,length) over [-1,L+2]^2 (inside, ending on the last column, overhanging by 1-3, by 1000 / 2^31 or up to math.MaxInt (incl. MaxInt-start and MaxInt-start+1), empty, start == L, negative, huge and huge negative starts/lengths), replacement '' / AMBIG / GAP / MAJ / a literal character / an unknown word, both protection flags, reference none / each row / an unknown name; " +
 			"MaskOccurences and MaskUnique with thresholds 0..n+1 (and MaxInt, MinInt, -1), the same replacements and references; every (start,length) in [-1,L+2]^2 x flags x references x replacements and every threshold for two fixed alignments by enumeration; " +
 			"executions of goalign mask with -s -l (on the alignment or on the ungapped reference through --ref-seq), --pos lists, --unique with --at-most (also together with the flags documented as ignored), --replace, --no-gaps, --no-ref, explicit and detected alphabet, on FASTA files (a third in another presentation; a third with -o to a new file, an existing stale file or a .gz file that is read back; a quarter of the windows leaving out -s 0 / -l 10, the documented defaults) and - one execution in three - on Phylip files holding 2-3 alignments (the command loops over them; each output alignment is judged with the model of ITS input alignment). " +
